@@ -92,9 +92,9 @@ set_option maxHeartbeats 400000 in
 mutual
 /-- Decoding the (unchecked) encoding of a value that does not fit below the limit fails with the
 nesting error — after having decoded every earlier sibling successfully. -/
-theorem dec_tooDeep (utf8 : Bool) (ep : Epoch) : ∀ (v : Value) (d : Nat) (rest : Bytes) (fuel : Nat),
+theorem dec_tooDeep (cfg : DecCfg) (ep : Epoch) (hv2 : ep = .v2 → cfg.v2 = true) : ∀ (v : Value) (d : Nat) (rest : Bytes) (fuel : Nat),
     v.WF → d + v.depth > maxValueDepth → 2 * (encRaw ep v).length + 1 ≤ fuel →
-    dec utf8 fuel (encRaw ep v ++ rest) d = .error .tooDeep
+    dec cfg fuel (encRaw ep v ++ rest) d = .error .tooDeep
   | v, d, rest, 0, _, _, hf => by omega
   | .none, d, rest, f + 1, hw, hd, hf => by
     simp only [Value.depth] at hd; simp [dec, hd]
@@ -117,16 +117,16 @@ theorem dec_tooDeep (utf8 : Bool) (ep : Epoch) : ∀ (v : Value) (d : Nat) (rest
     simp only [Value.WF] at hw
     by_cases hd' : d + 1 > maxValueDepth
     · simp [dec, hd']
-    · have ih := dec_tooDeep utf8 ep v (d + 1) rest f hw (by omega) (by simp [encRaw] at hf; omega)
-      simp [encRaw, dec, hd', classify_b Kind.some (by decide), ih]
+    · have ih := dec_tooDeep cfg ep hv2 v (d + 1) rest f hw (by omega) (by simp [encRaw] at hf; omega)
+      simp [encRaw, dec, hd', classifyC_b cfg Kind.some (by decide) (by intro h; simp [Kind.isV2] at h), ih]
   | .enum id v, d, rest, f + 1, hw, hd, hf => by
     simp only [Value.depth] at hd
     simp only [Value.WF] at hw
     by_cases hd' : d + 1 > maxValueDepth
     · simp [dec, hd']
-    · have ih := dec_tooDeep utf8 ep v (d + 1) rest f hw.2 (by omega) (by simp [encRaw] at hf; omega)
+    · have ih := dec_tooDeep cfg ep hv2 v (d + 1) rest f hw.2 (by omega) (by simp [encRaw] at hf; omega)
       simp only [encRaw, List.cons_append, List.append_assoc, dec, hd', ↓reduceIte,
-        classify_b Kind.enum (by decide)]
+        classifyC_b cfg Kind.enum (by decide) (by intro h; simp [Kind.isV2] at h)]
       rw [getVarint_putVarint 4 _ (by omega) (by omega) (u32_lt _ hw.1)]
       simp [ih]
   | .vec vs, d, rest, f + 1, hw, hd, hf => by
@@ -137,14 +137,14 @@ theorem dec_tooDeep (utf8 : Bool) (ep : Epoch) : ∀ (v : Value) (d : Nat) (rest
     · cases ep with
       | v1 =>
         simp only [encRaw, List.cons_append, List.append_assoc, dec, hd', ↓reduceIte,
-          classify_b Kind.vec1 (by decide)]
+          classifyC_b cfg Kind.vec1 (by decide) (by intro h; simp [Kind.isV2] at h)]
         rw [getVarint_putVarint 4 _ (by omega) (by omega) (u32_lt _ hw.1)]
-        have ih := decElems1_tooDeep utf8 vs (d + 1) rest f hw.2 (by omega) (by omega)
+        have ih := decElems1_tooDeep cfg vs (d + 1) rest f hw.2 (by omega) (by omega)
           (by simp [encRaw] at hf; omega)
         simp [ih]
       | v2 =>
-        simp only [encRaw, List.cons_append, dec, hd', ↓reduceIte, classify_b Kind.vec2 (by decide)]
-        have ih := decElems2_tooDeep utf8 vs (d + 1) rest f hw.2 (by omega) (by omega)
+        simp only [encRaw, List.cons_append, dec, hd', ↓reduceIte, classifyC_b cfg Kind.vec2 (by decide) (fun _ => hv2 rfl)]
+        have ih := decElems2_tooDeep cfg (hv2 rfl) vs (d + 1) rest f hw.2 (by omega) (by omega)
           (by simp [encRaw] at hf; omega)
         simp [ih]
   | .map kt es, d, rest, f + 1, hw, hd, hf => by
@@ -155,21 +155,21 @@ theorem dec_tooDeep (utf8 : Bool) (ep : Epoch) : ∀ (v : Value) (d : Nat) (rest
     · cases ep with
       | v1 =>
         simp only [encRaw, List.cons_append, List.append_assoc, dec, hd', ↓reduceIte,
-          classify_b (Kind.map1 kt) (by cases kt with | int t => cases t <;> decide | _ => decide)]
+          classifyC_b cfg (Kind.map1 kt) (by cases kt with | int t => cases t <;> decide | _ => decide) (by intro h; simp [Kind.isV2] at h)]
         rw [getVarint_putVarint 4 _ (by omega) (by omega) (u32_lt _ hw.1)]
-        have ih := decEntries1_tooDeep utf8 kt es (d + 1) rest f hw.2 (by omega) (by omega)
+        have ih := decEntries1_tooDeep cfg kt es (d + 1) rest f hw.2 (by omega) (by omega)
           (by simp [encRaw] at hf; omega)
         simp [ih]
       | v2 =>
         simp only [encRaw, List.cons_append, dec, hd', ↓reduceIte,
-          classify_b (Kind.map2 kt) (by cases kt with | int t => cases t <;> decide | _ => decide)]
-        have ih := decEntries2_tooDeep utf8 kt es (d + 1) rest f hw.2 (by omega) (by omega)
+          classifyC_b cfg (Kind.map2 kt) (by cases kt with | int t => cases t <;> decide | _ => decide) (fun _ => hv2 rfl)]
+        have ih := decEntries2_tooDeep cfg (hv2 rfl) kt es (d + 1) rest f hw.2 (by omega) (by omega)
           (by simp [encRaw] at hf; omega)
         simp [ih]
 
-theorem decElems1_tooDeep (utf8 : Bool) : ∀ (vs : List Value) (d : Nat) (rest : Bytes) (fuel : Nat),
+theorem decElems1_tooDeep (cfg : DecCfg) : ∀ (vs : List Value) (d : Nat) (rest : Bytes) (fuel : Nat),
     WFList vs → d ≤ maxValueDepth → d + depthList vs > maxValueDepth → 2 * (encElemsRaw .v1 vs).length + 2 ≤ fuel →
-    decElems1 utf8 fuel vs.length (encElemsRaw .v1 vs ++ rest) d = .error .tooDeep
+    decElems1 cfg fuel vs.length (encElemsRaw .v1 vs ++ rest) d = .error .tooDeep
   | vs, d, rest, 0, _, _, _, hf => by omega
   | [], d, rest, f + 1, _, hle, hd, _ => by
     simp only [depthList] at hd; omega
@@ -179,15 +179,15 @@ theorem decElems1_tooDeep (utf8 : Bool) : ∀ (vs : List Value) (d : Nat) (rest 
     have hp := encRaw_length_pos .v1 v
     simp only [encElemsRaw, List.length_append] at hf
     by_cases hv : d + v.depth > maxValueDepth
-    · have ih1 := dec_tooDeep utf8 .v1 v d (encElemsRaw .v1 vs ++ rest) f hw.1 hv (by omega)
+    · have ih1 := dec_tooDeep cfg .v1 (by intro h; cases h) v d (encElemsRaw .v1 vs ++ rest) f hw.1 hv (by omega)
       simp [decElems1, encElemsRaw, ih1]
-    · have ih1 := dec_encRaw utf8 .v1 v d (encElemsRaw .v1 vs ++ rest) f hw.1 (by omega) (by omega)
-      have ih2 := decElems1_tooDeep utf8 vs d rest f hw.2 hle (by omega) (by omega)
+    · have ih1 := dec_encRaw cfg .v1 (by intro h; cases h) v d (encElemsRaw .v1 vs ++ rest) f hw.1 (by omega) (by omega)
+      have ih2 := decElems1_tooDeep cfg vs d rest f hw.2 hle (by omega) (by omega)
       simp [decElems1, encElemsRaw, ih1, ih2]
 
-theorem decElems2_tooDeep (utf8 : Bool) : ∀ (vs : List Value) (d : Nat) (rest : Bytes) (fuel : Nat),
+theorem decElems2_tooDeep (cfg : DecCfg) (hc : cfg.v2 = true) : ∀ (vs : List Value) (d : Nat) (rest : Bytes) (fuel : Nat),
     WFList vs → d ≤ maxValueDepth → d + depthList vs > maxValueDepth → 2 * (encElemsRaw .v2 vs).length + 2 ≤ fuel →
-    decElems2 utf8 fuel (encElemsRaw .v2 vs ++ rest) d = .error .tooDeep
+    decElems2 cfg fuel (encElemsRaw .v2 vs ++ rest) d = .error .tooDeep
   | vs, d, rest, 0, _, _, _, hf => by omega
   | [], d, rest, f + 1, _, hle, hd, _ => by
     simp only [depthList] at hd; omega
@@ -196,15 +196,15 @@ theorem decElems2_tooDeep (utf8 : Bool) : ∀ (vs : List Value) (d : Nat) (rest 
     simp only [depthList] at hd
     simp only [encElemsRaw, List.length_cons, List.length_append] at hf
     by_cases hv : d + v.depth > maxValueDepth
-    · have ih1 := dec_tooDeep utf8 .v2 v d (encElemsRaw .v2 vs ++ rest) f hw.1 hv (by omega)
+    · have ih1 := dec_tooDeep cfg .v2 (fun _ => hc) v d (encElemsRaw .v2 vs ++ rest) f hw.1 hv (by omega)
       simp [decElems2, encElemsRaw, some_ne_none_b, ih1]
-    · have ih1 := dec_encRaw utf8 .v2 v d (encElemsRaw .v2 vs ++ rest) f hw.1 (by omega) (by omega)
-      have ih2 := decElems2_tooDeep utf8 vs d rest f hw.2 hle (by omega) (by omega)
+    · have ih1 := dec_encRaw cfg .v2 (fun _ => hc) v d (encElemsRaw .v2 vs ++ rest) f hw.1 (by omega) (by omega)
+      have ih2 := decElems2_tooDeep cfg hc vs d rest f hw.2 hle (by omega) (by omega)
       simp [decElems2, encElemsRaw, some_ne_none_b, ih1, ih2]
 
-theorem decEntries1_tooDeep (utf8 : Bool) (kt : KeyTy) : ∀ (es : List (Key × Value)) (d : Nat) (rest : Bytes) (fuel : Nat),
+theorem decEntries1_tooDeep (cfg : DecCfg) (kt : KeyTy) : ∀ (es : List (Key × Value)) (d : Nat) (rest : Bytes) (fuel : Nat),
     WFEntries kt es → d ≤ maxValueDepth → d + depthEntries es > maxValueDepth → 2 * (encEntriesRaw .v1 kt es).length + 2 ≤ fuel →
-    decEntries1 utf8 kt fuel es.length (encEntriesRaw .v1 kt es ++ rest) d = .error .tooDeep
+    decEntries1 cfg kt fuel es.length (encEntriesRaw .v1 kt es ++ rest) d = .error .tooDeep
   | es, d, rest, 0, _, _, _, hf => by omega
   | [], d, rest, f + 1, _, hle, hd, _ => by
     simp only [depthEntries] at hd; omega
@@ -214,15 +214,15 @@ theorem decEntries1_tooDeep (utf8 : Bool) (kt : KeyTy) : ∀ (es : List (Key × 
     have hp := encRaw_length_pos .v1 v
     simp only [encEntriesRaw, List.length_append] at hf
     by_cases hv : d + v.depth > maxValueDepth
-    · have ih1 := dec_tooDeep utf8 .v1 v d (encEntriesRaw .v1 kt es ++ rest) f hw.2.1 hv (by omega)
-      simp [decEntries1, encEntriesRaw, decKey_encKey utf8 kt k hw.1, ih1]
-    · have ih1 := dec_encRaw utf8 .v1 v d (encEntriesRaw .v1 kt es ++ rest) f hw.2.1 (by omega) (by omega)
-      have ih2 := decEntries1_tooDeep utf8 kt es d rest f hw.2.2 hle (by omega) (by omega)
-      simp [decEntries1, encEntriesRaw, decKey_encKey utf8 kt k hw.1, ih1, ih2]
+    · have ih1 := dec_tooDeep cfg .v1 (by intro h; cases h) v d (encEntriesRaw .v1 kt es ++ rest) f hw.2.1 hv (by omega)
+      simp [decEntries1, encEntriesRaw, decKey_encKey cfg.utf8 kt k hw.1, ih1]
+    · have ih1 := dec_encRaw cfg .v1 (by intro h; cases h) v d (encEntriesRaw .v1 kt es ++ rest) f hw.2.1 (by omega) (by omega)
+      have ih2 := decEntries1_tooDeep cfg kt es d rest f hw.2.2 hle (by omega) (by omega)
+      simp [decEntries1, encEntriesRaw, decKey_encKey cfg.utf8 kt k hw.1, ih1, ih2]
 
-theorem decEntries2_tooDeep (utf8 : Bool) (kt : KeyTy) : ∀ (es : List (Key × Value)) (d : Nat) (rest : Bytes) (fuel : Nat),
+theorem decEntries2_tooDeep (cfg : DecCfg) (hc : cfg.v2 = true) (kt : KeyTy) : ∀ (es : List (Key × Value)) (d : Nat) (rest : Bytes) (fuel : Nat),
     WFEntries kt es → d ≤ maxValueDepth → d + depthEntries es > maxValueDepth → 2 * (encEntriesRaw .v2 kt es).length + 2 ≤ fuel →
-    decEntries2 utf8 kt fuel (encEntriesRaw .v2 kt es ++ rest) d = .error .tooDeep
+    decEntries2 cfg kt fuel (encEntriesRaw .v2 kt es ++ rest) d = .error .tooDeep
   | es, d, rest, 0, _, _, _, hf => by omega
   | [], d, rest, f + 1, _, hle, hd, _ => by
     simp only [depthEntries] at hd; omega
@@ -231,11 +231,11 @@ theorem decEntries2_tooDeep (utf8 : Bool) (kt : KeyTy) : ∀ (es : List (Key × 
     simp only [depthEntries] at hd
     simp only [encEntriesRaw, List.length_cons, List.length_append] at hf
     by_cases hv : d + v.depth > maxValueDepth
-    · have ih1 := dec_tooDeep utf8 .v2 v d (encEntriesRaw .v2 kt es ++ rest) f hw.2.1 hv (by omega)
-      simp [decEntries2, encEntriesRaw, some_ne_none_b, decKey_encKey utf8 kt k hw.1, ih1]
-    · have ih1 := dec_encRaw utf8 .v2 v d (encEntriesRaw .v2 kt es ++ rest) f hw.2.1 (by omega) (by omega)
-      have ih2 := decEntries2_tooDeep utf8 kt es d rest f hw.2.2 hle (by omega) (by omega)
-      simp [decEntries2, encEntriesRaw, some_ne_none_b, decKey_encKey utf8 kt k hw.1, ih1, ih2]
+    · have ih1 := dec_tooDeep cfg .v2 (fun _ => hc) v d (encEntriesRaw .v2 kt es ++ rest) f hw.2.1 hv (by omega)
+      simp [decEntries2, encEntriesRaw, some_ne_none_b, decKey_encKey cfg.utf8 kt k hw.1, ih1]
+    · have ih1 := dec_encRaw cfg .v2 (fun _ => hc) v d (encEntriesRaw .v2 kt es ++ rest) f hw.2.1 (by omega) (by omega)
+      have ih2 := decEntries2_tooDeep cfg hc kt es d rest f hw.2.2 hle (by omega) (by omega)
+      simp [decEntries2, encEntriesRaw, some_ne_none_b, decKey_encKey cfg.utf8 kt k hw.1, ih1, ih2]
 end
 
 end Aldrin
